@@ -45,7 +45,7 @@ type Death struct {
 
 // Sig is the narrow signature of a process death.
 func (d *Death) Sig(strip func(string) string) string {
-	return "death:" + d.Site + ":" + strip(d.Kind+": "+d.Msg)
+	return NoSpace("death:" + d.Site + ":" + strip(d.Kind+": "+d.Msg))
 }
 
 // Exit codes a child uses to stop deliberately.
